@@ -13,6 +13,7 @@ import hashlib
 import importlib
 import json
 import os
+import re
 import shutil
 import subprocess
 import sys
@@ -378,14 +379,29 @@ def include_errors(chk, root):
         ('isar', 'missing', {'m.xml': '<x xmlns:xi="http://www.xyz.com/1984/XInclude"><xi:include href="nope.xml"/><struct name="A"><member name="a" type="u8"/></struct></x>'}, 'm.xml', ['--isar']),
         ('isar', 'cyclic', {'a.xml': '<x xmlns:xi="http://www.xyz.com/1984/XInclude"><xi:include href="b.xml"/><struct name="A"><member name="a" type="u8"/></struct></x>',
                             'b.xml': '<x xmlns:xi="http://www.xyz.com/1984/XInclude"><xi:include href="a.xml"/><struct name="B"><member name="b" type="u8"/></struct></x>'}, 'a.xml', ['--isar']),
+        # the second input reaches C by its real path: from there its include D does not exist (it does next to the link the
+        # first input used): the file cached for the first input must not hide that
+        ('prophy', 'missing from the real path of a file cached through a link',
+         {'real/C.prophy': '#include "D.prophy"\nstruct C { D d; };\n', 'links/C.prophy': '->../real/C.prophy', 'links/D.prophy': 'struct D { u8 x; };\n',
+          'main1.prophy': '#include "links/C.prophy"\nstruct M1 { C c; };\n', 'main2.prophy': '#include "real/C.prophy"\nstruct M2 { C c; };\n'},
+         ['main1.prophy', 'main2.prophy'], []),
+        ('prophy', 'missing from the real path of a file cached through a link (other order)',
+         {'real/C.prophy': '#include "D.prophy"\nstruct C { D d; };\n', 'links/C.prophy': '->../real/C.prophy', 'links/D.prophy': 'struct D { u8 x; };\n',
+          'main1.prophy': '#include "links/C.prophy"\nstruct M1 { C c; };\n', 'main2.prophy': '#include "real/C.prophy"\nstruct M2 { C c; };\n'},
+         ['main2.prophy', 'main1.prophy'], []),
     ]
     for syntax, kind, files, main, extra in cases:
-        cd = os.path.join(d, syntax + kind)
+        cd = os.path.join(d, syntax + re.sub(r'\W', '_', kind))
         os.makedirs(cd)
         for n, t in files.items():
+            os.makedirs(os.path.dirname(os.path.join(cd, n)), exist_ok=True)
+            if t.startswith('->'):
+                os.symlink(t[2:], os.path.join(cd, n))
+                continue
             with open(os.path.join(cd, n), 'w') as f:
                 f.write(t)
-        rc, so, se = run_cli(extra + ['-I', cd, '--python_out', cd, os.path.join(cd, main)], cd)
+        mains = main if isinstance(main, list) else [main]
+        rc, so, se = run_cli(extra + ['-I', cd, '--python_out', cd] + [os.path.join(cd, m) for m in mains], cd)
         casej = {'syntax': syntax, 'kind': kind, 'files': files}
         chk.count(('include-error', syntax, kind), True)
         chk.bump('include-error:%s/%s' % (syntax, kind))
@@ -656,6 +672,9 @@ def collision_cases(chk, root):
         ('a chain of 120 includes and its lower half (D171)',
          dict(('c%d.prophy' % k, ('#include "c%d.prophy"\n' % (k + 1) if k < 119 else '') + 'struct S%d { u8 x; };\n' % k) for k in range(120)),
          ['c0.prophy', 'c60.prophy'], ['--python_out', '@O']),
+        ('a chain of 70 includes: over the limit of 64, within what the interpreter\'s stack allows',
+         dict(('c%d.prophy' % k, ('#include "c%d.prophy"\n' % (k + 1) if k < 69 else '') + 'struct S%d { u8 x; };\n' % k) for k in range(70)),
+         ['c0.prophy', 'c35.prophy'], ['--python_out', '@O']),
         ('one input the C++ full generator refuses', {'good.prophy': 'struct Good { u8 a; };\n', 'two.prophy': 'struct Two { u8 n; u8 a<@n>; u16 b<@n>; };\n'},
          ['good.prophy', 'two.prophy'], ['--python_out', '@O', '--cpp_full_out', '@O']),
     ]
@@ -689,6 +708,21 @@ def collision_cases(chk, root):
         casej = {'kind': kind, 'files': files, 'inputs': inputs}
         chk.count(('collision', kind), True)
         chk.bump('collision:' + kind)
+        # the same inputs spelled relative to the working directory (the runs above name them by absolute path)
+        cd = os.path.join(d, 'c%d_rel' % k)
+        for n, t in files.items():
+            os.makedirs(os.path.dirname(os.path.join(cd, n)), exist_ok=True)
+            if t.startswith('->'):
+                os.symlink(t[2:], os.path.join(cd, n))
+            else:
+                with open(os.path.join(cd, n), 'w') as f:
+                    f.write(t)
+        os.makedirs(os.path.join(cd, 'out'), exist_ok=True)
+        rc, so, se = run_cli([a.replace('@O', 'out').replace('@D/', '').replace('@D', '.') for a in outs] + list(inputs), cd)
+        relative = (rc, tree_hash(os.path.join(cd, 'out')), sorted(os.listdir(os.path.join(cd, 'out'))))
+        if relative != results[0]:
+            chk.property_violation(casej, {'what': 'the outcome depends on how the input paths are spelled (relative to the working directory / absolute)',
+                                           'absolute': [results[0][0], results[0][2]], 'relative': [relative[0], relative[2]], 'stderr': se[:200]})
         if results[0] != results[1]:
             chk.property_violation(casej, {'what': 'the two command-line orders of the same inputs leave different outputs',
                                            'first': [results[0][0], results[0][2]], 'reversed': [results[1][0], results[1][2]]})
